@@ -186,6 +186,9 @@ func explore(p Property, job *Job) {
 		if job.OnlyRun >= 0 && run != job.OnlyRun {
 			continue
 		}
+		if run < job.FirstRun {
+			continue
+		}
 		if job.BudgetS > 0 && time.Since(start).Seconds() > job.BudgetS {
 			sum.TimedOut = true
 			break
@@ -193,6 +196,13 @@ func explore(p Property, job *Job) {
 		os.WriteFile(job.Out+".current", []byte(fmt.Sprintf(`{"run":%d}`, run)), 0o644)
 		plan := p.Gen(job.Seed, run, job.Tier, job.Variant)
 		res := safeExec(p, plan)
+		if strings.HasPrefix(res.Infra, "SKIP:") && res.Class == "" {
+			// part of this run could not be simulated in this (tainted) process: hand the run
+			// to a fresh process
+			sum.Retired = true
+			sum.RetiredAt = run
+			break
+		}
 		if sum.FirstRun < 0 {
 			sum.FirstRun = run
 		}
@@ -231,6 +241,14 @@ func explore(p Property, job *Job) {
 		}
 		if len(sum.Samples) < job.Samples && (res.Nontrivial || run%7 == 0) {
 			sum.Samples = append(sum.Samples, mustJSON(map[string]interface{}{"run": run, "plan": plan, "steps": res.Steps, "tasks": res.Tasks, "faults_fired": res.Faults, "ok": res.Class == "" && res.Infra == ""}))
+		}
+		if res.Leaked > 0 && res.Class == "" {
+			// goroutines of this run's bubble are still alive: package-level state may now refer to
+			// channels of a dead bubble, so this process must not run another simulation
+			sum.Notes["goroutines-outliving-the-call"] += res.Leaked
+			sum.Retired = true
+			sum.RetiredAt = run + nsh
+			break
 		}
 		if res.Infra != "" {
 			sum.Infra = append(sum.Infra, fmt.Sprintf("run %d: %s", run, res.Infra))
